@@ -590,7 +590,11 @@ def ft4(F, R):
     fn = F.fn(FATVOL + "::update_fat")
     arms = fat_arms(fn)
     w32 = [(b, t) for b, t in fn.calls() if b in arms["Fat32"] and (callee_of(t) or "").endswith("ByteOrder::write_u32")]
-    if len(w32) != 1:
+    if len(w32) > 1:
+        # one call changes one entry: every ordering argument (mark the new cluster before linking it, unlink before
+        # freeing) counts update_fat calls as single-entry writes
+        R.bad(fn, "fat32:one-entry-per-call", "update_fat stores %d FAT32 entries in one call: a call changes the one entry it was asked to change (a second entry written along rides on sector arithmetic that differs per FAT type and is seen by none of the ordering rules)" % len(w32), fn.loc(w32[1][0]))
+    elif len(w32) != 1:
         R.bad(fn, "fat32:write_u32", "expected one write_u32 in the FAT32 arm", kind="anchor-missing")
     for b, t in w32:
         val = fn.term_of_operand(t["args"][1], b)
@@ -928,7 +932,9 @@ def ft9(F, R):
         isend = lambda g: g.kind == "variant" and g.variant == "EndOfFile" and has_sub(g.term, lambda q: q[0] == "call" and q[1] and path_matches(q[1], "FatVolume::next_cluster") and q[3] == nb_)
         for (rb, ri, rv) in ok_returns(fn):
             if rb in fn.reach([lp_[0]]):
-                okend, _ = guarded(fn, rb, isend, frm=lp_[0])
+                from .ev import implying_edges
+                # (the answer may be carried to the exit in a local: `let following = match .. { Err(EndOfFile) => None, .. }`)
+                okend = fn.unreachable_without(rb, list(implying_edges(fn, isend)), lp_[0])
                 R.require(okend, fn, "walks-to-end", "truncate_cluster_chain can return Ok from its loop without having reached the end of the chain: the clusters behind stay allocated with no owner", fn.loc(rb, ri))
     R.require(okf, fn, "frees", "a cluster looked up by the truncation walk can be left allocated: after next_cluster(cursor) answered Ok / EndOfFile the walk moves on (or finishes) without update_fat(cursor, EMPTY)", fn.loc(0))
     for (b, t, cl, val, kind) in empt:
@@ -1729,6 +1735,13 @@ def is4(F, R):
                 continue
             R.bad(f, "count-influences-control", "control flow depends on the stored free-cluster count (%r): a stale record could make an operation fail" % g, f.loc(gb))
     R.ok(None, "count-guards", "%d guards mention free_clusters_count; all are Some/None tests" % n)
+    # ... and neither field decides whether the volume mounts: the record is rewritten only at flush / close / delete, so
+    # between two of those (i.e. after any power cut) it is stale - the hint names a cluster that has been handed out since.
+    # No Err exit of parse_volume lies behind a test of the hint or the count.
+    pv = F.fn("fat::volume::parse_volume")
+    hint_edges = [(gb, gi) for (gb, gi, g) in all_guards(pv) if any(k in tstr(g.raw) for k in ("next_free_cluster", "free_clusters_count"))]
+    for x in err_returns(pv):
+        R.require(not hint_edges or not pv.unreachable_without(x[0], hint_edges), pv, "record-decides-mount", "parse_volume refuses the volume (Err(%s)) depending on the FSInfo hint / count: after a power cut the record is stale by design, and the whole volume - every flushed file - becomes unreachable" % x[2], pv.loc(x[0]))
     # independence of the two info-sector fields
     fn = F.fn(FATVOL + "::update_info_sector")
     for b, t in fn.calls():
